@@ -292,6 +292,37 @@ def native_cli(construct="pub a: u64"):
         shutil.rmtree(d, ignore_errors=True)
 
 
+def native_crates(shape):
+    """real binary in folder mode on crates c0, c1, .. where crate k holds shape[k] files with an unsupported field (and one good
+    file); an output file of every crate exists beforehand.  -> (exit code, [modified or new output files])"""
+    import os, shutil, tempfile, time
+    from vlib.harness import CliDriver
+    d = tempfile.mkdtemp(prefix="c08-")
+    drv = CliDriver()
+    try:
+        os.makedirs(os.path.join(d, "out"))
+        before = {}
+        for k, n in enumerate(shape):
+            os.makedirs(os.path.join(d, "c%d" % k, "src"))
+            open(os.path.join(d, "c%d" % k, "src", "lib.rs"), "w").write("#[typeshare]\npub struct Good%d { pub g: u32 }\n" % k)
+            for j in range(n):
+                open(os.path.join(d, "c%d" % k, "src", "bad%d.rs" % j), "w").write("#[typeshare]\npub struct Bad%d_%d { pub a: u64 }\n" % (k, j))
+            p = os.path.join(d, "out", "c%d.ts" % k)
+            open(p, "w").write("// previous output %d\n" % k)
+            before[p] = os.stat(p).st_mtime_ns
+        time.sleep(0.02)
+        rc, so, se = drv.cli(["c%d" % k for k in range(len(shape))] + ["--lang", "typescript", "-d", "out"], d)
+        changed = []
+        for f in sorted(os.listdir(os.path.join(d, "out"))):
+            p = os.path.join(d, "out", f)
+            if p not in before or os.stat(p).st_mtime_ns != before[p] or not open(p).read().startswith("// previous output"):
+                changed.append(f)
+        return rc, changed
+    finally:
+        drv.close()
+        shutil.rmtree(d, ignore_errors=True)
+
+
 def run_cli_half(rep, tier):
     from vlib.harness import pmap
     from checks.pcommon import account
@@ -338,6 +369,23 @@ def run_cli_half(rep, tier):
             rep.inconc("engine mismatch (cli flow) %s: %s, real binary exit %d, output %s" % (case, v, rc, "modified" if touched else "untouched"))
     rep.bounds["cli-flow"] = "trees of 1..2 (thorough: 3) files of kinds %s through parse_dir_entry -> collector -> check_parse_errors, single-file and folder mode" % sorted(FILE_KINDS)
     rep.bounds["cli"] = "CFG of cli generate_types (dominance of write_generated by the Ok edge of check_parse_errors(..)?, z3 Datalog); check_parse_errors on 1..3 crates x 0..2 errors each; the collector fold on 2..4 files with/without errors"
+    shape_viol = [v for v in viol if v.get("shape")]
+    viol = [v for v in viol if not v.get("shape")]
+    done = set()
+    for v in shape_viol:
+        key = (v["kind"], len(v["shape"]))
+        if key in done:
+            continue
+        rc, changed = native_crates(v["shape"])
+        rep.validated += 1
+        want_err = v["kind"] == "errors-not-reported"
+        sig = {"part": "cli", "kind": v["kind"], "crates": len(v["shape"])}
+        if (want_err and (rc == 0 or changed)) or (not want_err and rc != 0):
+            done.add(key)
+            rep.violation(sig, "typeshare -d on crates c0..c%d with %s unsupported items per crate and existing output files: exit code %d, output files modified: %s" % (len(v["shape"]) - 1, v["shape"], rc, changed or "none"),
+                          {"cli": True, "shape": v["shape"], "want_err": want_err})
+        else:
+            rep.inconc("engine mismatch (cli half): %s, but the real binary exits %d and modifies %s" % (v, rc, changed or "nothing"))
     if viol:
         rc, touched, extra, now = native_cli()
         rep.validated += 1
@@ -357,6 +405,10 @@ def replay_cli(c=None):
         rc, touched = native_flow(tuple(c["flow"][0]), c["flow"][1])
         print("exit code %d, output %s" % (rc, "modified" if touched else "untouched"))
         return 1 if ((c["want_err"] and (rc == 0 or touched)) or (not c["want_err"] and rc != 0)) else 0
+    if c and c.get("shape"):
+        rc, changed = native_crates(c["shape"])
+        print("exit code %d, modified output files %s" % (rc, changed))
+        return 1 if ((c["want_err"] and (rc == 0 or changed)) or (not c["want_err"] and rc != 0)) else 0
     rc, touched, extra, now = native_cli()
     print("exit code %d, output %s, extra files %s" % (rc, "modified" if touched else "untouched", extra))
     return 1 if (rc == 0 or touched or extra) else 0
